@@ -3,11 +3,17 @@ lean/ICal/Driver/TreeProto.lean."""
 from .proto import enc, dec
 
 
+TOICAL_ERROR = '\x00to_ical-ValueError'
+
+
 def value_text(v):
     """value.to_ical() as text (what the serialiser prints); non-icalendar values go through vText like
     Contentline.from_parts does."""
     from icalendar.prop import vText
-    t = v.to_ical() if hasattr(v, 'to_ical') else vText(v).to_ical()
+    try:
+        t = v.to_ical() if hasattr(v, 'to_ical') else vText(v).to_ical()
+    except ValueError:
+        return TOICAL_ERROR   # the value was accepted by the parser but cannot be rendered
     if isinstance(t, bytes):
         t = t.decode('utf-8', 'replace')
     return t
